@@ -103,7 +103,9 @@ def posLocal (senv : SEnv) (frs : List FlatRule) (n : Nat) : Pos → Bool
 def localOK (senv : SEnv) (frs : List FlatRule) (n : Nat) (fr : FlatRule) : Bool :=
   FlatWF senv.defaultGraph fr && !isAllConstant (toRule fr) && decide (merges frs n fr ≤ 1) &&
   (frefs frs (n + 1) fr).all (fun c => !hasPP c) &&
-  posLocal senv frs n fr.subject && posLocal senv frs n fr.object
+  posLocal senv frs n fr.subject && posLocal senv frs n fr.object &&
+  -- the rule reads at least one column (a reader asked for no column returns no row, whatever the table holds)
+  !(frefs frs (n + 1) fr).isEmpty
 
 def okAt (senv : SEnv) (frs : List FlatRule) : Nat → FlatRule → Bool
   | 0, fr => localOK senv frs 0 fr && depthLe frs 0 fr
@@ -171,11 +173,12 @@ structure LocalFacts (senv : SEnv) (frs : List FlatRule) (n : Nat) (fr : FlatRul
   noPP : ∀ c ∈ frefs frs (n + 1) fr, hasPP c = false
   subj : posLocal senv frs n fr.subject = true
   obj : posLocal senv frs n fr.object = true
+  hasRefs : (frefs frs (n + 1) fr).isEmpty = false
 
 theorem localOK_facts {senv : SEnv} {frs : List FlatRule} {n : Nat} {fr : FlatRule} (h : localOK senv frs n fr = true) :
     LocalFacts senv frs n fr := by
   simp only [localOK, Bool.and_eq_true, Bool.not_eq_true', decide_eq_true_eq, List.all_eq_true] at h
-  obtain ⟨⟨⟨⟨⟨h1, h2⟩, h3⟩, h4⟩, h5⟩, h6⟩ := h
-  exact ⟨h1, h2, h3, fun c hc => by simpa using h4 c hc, h5, h6⟩
+  obtain ⟨⟨⟨⟨⟨⟨h1, h2⟩, h3⟩, h4⟩, h5⟩, h6⟩, h7⟩ := h
+  exact ⟨h1, h2, h3, fun c hc => by simpa using h4 c hc, h5, h6, h7⟩
 
 end Model.Star
